@@ -262,13 +262,6 @@ func (b *backing) changed() string {
 	return ""
 }
 
-func itemID(x any) string {
-	if m, ok := x.(proto.Message); ok {
-		return fmt.Sprintf("%T@%p", m, m)
-	}
-	return renderItem(x)
-}
-
 func newBacking(name string, full []any) *backing {
 	b := &backing{name: name, full: full}
 	for _, x := range full {
